@@ -155,15 +155,20 @@ pub fn mod_switch_2n(n: usize, res: &mut [i64], lwe: &LWE<&[u8]>, rot_dir: LookU
     } else {
         let rem: usize = base2k - (log2n % base2k);
         let size: usize = log2n.div_ceil(base2k);
+        // The first limb was negated above for a left rotation: the lower limbs take the same sign.
+        let sgn: i64 = match rot_dir {
+            LookUpTableRotationDirection::Left => -1,
+            LookUpTableRotationDirection::Right => 1,
+        };
         (1..size).for_each(|i| {
             if i == size - 1 && rem != base2k {
                 let k_rem: usize = base2k - rem;
                 izip!(lwe.data().at(0, i).iter(), res.iter_mut()).for_each(|(x, y)| {
-                    *y = (*y << k_rem) + (x >> rem);
+                    *y = (*y << k_rem) + ((sgn * x) >> rem);
                 });
             } else {
                 izip!(lwe.data().at(0, i).iter(), res.iter_mut()).for_each(|(x, y)| {
-                    *y = (*y << base2k) + x;
+                    *y = (*y << base2k) + sgn * x;
                 });
             }
         })
